@@ -785,6 +785,17 @@ class SamplerConfig:
             primitive_params=dict(self.primitive_params),
         )
 
+    def with_keyful_sampler(self, keyful_sampler: Callable[..., Any]) -> "SamplerConfig":
+        """Create a new config with a different keyful sampler."""
+        return SamplerConfig(
+            keyful_sampler=keyful_sampler,
+            name=self.name,
+            sample_shape=self.sample_shape,
+            support=self.support,
+            primitive=self.primitive,
+            primitive_params=dict(self.primitive_params),
+        )
+
     def get_keyful_sampler_with_shape(self) -> Callable[..., Any]:
         """Get the keyful sampler with sample_shape pre-applied."""
         return partial(self.keyful_sampler, sample_shape=self.sample_shape)
@@ -857,6 +868,31 @@ class FlatSamplerCache:
         return self._flat_sampler
 
 
+def _lanewise_sampler(keyful_sampler, n: int, batch_axes):
+    """Map a keyful sampler over `n` lanes of its (flat, positional) parameters."""
+    in_axes = (0,) + tuple(batch_axes)
+
+    def lanewise(key, *args, sample_shape=(), **kwargs):
+        # Staged as one call (like the samplers themselves), so that both new-style
+        # and legacy uint32 keys are accepted at run time.
+        @jax.jit
+        def run(key, *args):
+            keys = jrand.split(key, n)
+            lanes = jax.vmap(
+                lambda k, *a: keyful_sampler(
+                    k, *a, sample_shape=sample_shape, **kwargs
+                ),
+                in_axes=in_axes,
+            )(keys, *args)
+            # Keep the sampler convention `sample_shape + batch + event`: the lanes
+            # are batch axes, so a later sample_shape extension still prepends.
+            return jnp.moveaxis(lanes, 0, len(sample_shape))
+
+        return run(key, *args)
+
+    return lanewise
+
+
 class VmapBatchHandler:
     """Handles the complex vmap batching logic for probabilistic primitives.
 
@@ -887,6 +923,18 @@ class VmapBatchHandler:
 
         # Compute new sample shape
         n = static_dim_length(batch_axes, vector_args)
+
+        if n is not None:
+            # Some parameter carries the mapped axis (at any position, possibly with
+            # per-lane shapes of differing rank): sample lane by lane, each lane with
+            # its own key and its own slice of the parameters.  The lanes follow the
+            # site's own sample_shape in the result.
+            new_config = self.config.with_keyful_sampler(
+                _lanewise_sampler(self.config.keyful_sampler, n, batch_axes)
+            )
+            result = create_sample_primitive(new_config)(*vector_args)
+            return (result,), (len(self.config.sample_shape),)
+
         outer_batch_dim = self._compute_outer_batch_dim(n, axis_size)
         new_sample_shape = outer_batch_dim + self.config.sample_shape
 
